@@ -96,8 +96,245 @@ async fn run_case(case: &Value) -> Vec<Value> {
     div
 }
 
+// ------------------------------------------------------------------------------------------ selector
+// SelectorTrack (spec/Selector.tla): three threads under a small baton (same idea as bin/ring.rs): the consumer polls
+// selector.recv(), the switcher runs switch_to(B), the producer sends one sample to B; each `sched(label)` point of
+// the code parks its thread until the controller grants one step.
+
+mod baton {
+    use std::cell::RefCell;
+    use std::sync::{Arc, Condvar, Mutex};
+    use std::time::{Duration, Instant};
+
+    #[derive(Clone, Copy, PartialEq, Eq, Debug)]
+    pub enum Phase {
+        Running,
+        Parked,
+        Done,
+    }
+    pub struct St {
+        pub phase: Phase,
+        pub label: String,
+        pub grant: bool,
+        pub abort: bool,
+    }
+    pub struct Slot {
+        pub st: Mutex<St>,
+        pub cv: Condvar,
+    }
+    thread_local! { pub static CURRENT: RefCell<Option<Arc<Slot>>> = const { RefCell::new(None) }; }
+    impl Slot {
+        pub fn new() -> Arc<Self> {
+            Arc::new(Slot { st: Mutex::new(St { phase: Phase::Running, label: String::new(), grant: false, abort: false }), cv: Condvar::new() })
+        }
+        pub fn park(&self, label: &str) -> bool {
+            let mut g = self.st.lock().unwrap();
+            if g.abort {
+                return false;
+            }
+            g.label = label.to_string();
+            g.phase = Phase::Parked;
+            self.cv.notify_all();
+            loop {
+                if g.grant {
+                    g.grant = false;
+                    return true;
+                }
+                if g.abort {
+                    g.phase = Phase::Running;
+                    return false;
+                }
+                g = self.cv.wait_timeout(g, Duration::from_millis(100)).unwrap().0;
+            }
+        }
+        pub fn finish(&self) {
+            let mut g = self.st.lock().unwrap();
+            g.label = "done".into();
+            g.phase = Phase::Done;
+            self.cv.notify_all();
+        }
+        pub fn settled(&self) -> Option<(Phase, String)> {
+            let t0 = Instant::now();
+            let mut g = self.st.lock().unwrap();
+            while g.phase == Phase::Running {
+                if t0.elapsed() > Duration::from_secs(30) {
+                    return None;
+                }
+                g = self.cv.wait_timeout(g, Duration::from_millis(50)).unwrap().0;
+            }
+            Some((g.phase, g.label.clone()))
+        }
+        pub fn grant(&self) -> Option<(Phase, String)> {
+            {
+                let mut g = self.st.lock().unwrap();
+                g.grant = true;
+                g.phase = Phase::Running;
+                self.cv.notify_all();
+            }
+            self.settled()
+        }
+        pub fn abort(&self) {
+            self.st.lock().unwrap().abort = true;
+            self.cv.notify_all();
+        }
+    }
+}
+
+struct Flag(std::sync::atomic::AtomicBool);
+impl std::task::Wake for Flag {
+    fn wake(self: Arc<Self>) {
+        self.0.store(true, std::sync::atomic::Ordering::SeqCst);
+    }
+}
+
+fn selector_case(case: &Value) -> Option<Value> {
+    use baton::{CURRENT, Phase, Slot};
+    use rustrtc::media::track::SelectorTrack;
+    use std::sync::atomic::Ordering;
+    let (_src_a, track_a, _fa) = sample_track(MediaKind::Audio, 2);
+    let (src_b, track_b, _fb) = sample_track(MediaKind::Audio, 2);
+    let selector = Arc::new(SelectorTrack::new(track_a));
+    let slots: BTreeMap<&str, Arc<Slot>> = [("C", Slot::new()), ("W", Slot::new()), ("P", Slot::new())].into_iter().collect();
+    let flag = Arc::new(Flag(std::sync::atomic::AtomicBool::new(false)));
+    let got = Arc::new(std::sync::Mutex::new(String::new()));
+    let mut joins = Vec::new();
+    {
+        let (slot, sel, flag, got) = (slots["C"].clone(), selector.clone(), flag.clone(), got.clone());
+        joins.push(std::thread::spawn(move || {
+            CURRENT.with(|c| *c.borrow_mut() = Some(slot.clone()));
+            if slot.park("call") {
+                let waker = Waker::from(flag.clone());
+                let mut cx = Context::from_waker(&waker);
+                let mut fut = sel.recv();
+                loop {
+                    match fut.as_mut().poll(&mut cx) {
+                        Poll::Ready(Ok(MediaSample::Audio(f))) => {
+                            *got.lock().unwrap() = format!("{}", u32::from_be_bytes([f.data[0], f.data[1], f.data[2], f.data[3]]));
+                            break;
+                        }
+                        Poll::Ready(r) => {
+                            *got.lock().unwrap() = format!("{:?}", r.err());
+                            break;
+                        }
+                        Poll::Pending => {
+                            if !slot.park("c_sleep") {
+                                break;
+                            }
+                            flag.0.store(false, Ordering::SeqCst);
+                        }
+                    }
+                }
+            }
+            CURRENT.with(|c| *c.borrow_mut() = None);
+            slot.finish();
+        }));
+    }
+    {
+        let (slot, sel) = (slots["W"].clone(), selector.clone());
+        joins.push(std::thread::spawn(move || {
+            CURRENT.with(|c| *c.borrow_mut() = Some(slot.clone()));
+            if slot.park("call") {
+                let mut fut = Box::pin(sel.switch_to(track_b));
+                let mut cx = Context::from_waker(Waker::noop());
+                while fut.as_mut().poll(&mut cx).is_pending() {
+                    std::thread::yield_now();
+                }
+            }
+            CURRENT.with(|c| *c.borrow_mut() = None);
+            slot.finish();
+        }));
+    }
+    {
+        let slot = slots["P"].clone();
+        joins.push(std::thread::spawn(move || {
+            if slot.park("call") {
+                let _ = src_b.send_audio(frame(7));
+            }
+            slot.finish();
+            std::mem::forget(src_b); // B stays open
+        }));
+    }
+    let _ = &joins;
+    let mut result = None;
+    for s in slots.values() {
+        s.settled();
+    }
+    let steps = case["steps"].as_array().unwrap();
+    let mut either = false;
+    for (n, st) in steps.iter().enumerate() {
+        let (who, want) = (st[0].as_str().unwrap(), st[1].as_str().unwrap());
+        let slot = &slots[who];
+        let (ph, lbl) = slot.settled().unwrap_or((Phase::Running, "?".into()));
+        if ph != Phase::Parked || (lbl == "c_sleep" && !flag.0.load(Ordering::SeqCst)) {
+            result = Some(json!({"type":"divergence","rule":"EXT","engine":"selector","step":n,"kind":"not_runnable","at":lbl,"case":case}));
+            break;
+        }
+        match slot.grant() {
+            Some((_, l)) if l == want => {}
+            // both select! branches were ready: tokio picks one at random, either continuation is fine
+            Some((_, l)) if want == "either" && (l == "done" || l == "sel_read" || l == "sel_create") => {
+                either = true;
+                break;
+            }
+            other => {
+                result = Some(json!({"type":"divergence","rule":"EXT","engine":"selector","step":n,"kind":"label","expected":want,
+                    "observed":other.map(|o| o.1),"case":case}));
+                break;
+            }
+        }
+    }
+    if result.is_none() && !either {
+        let (ph, lbl) = slots["C"].settled().unwrap_or((Phase::Running, "?".into()));
+        let stuck = ph == Phase::Parked && lbl == "c_sleep" && !flag.0.load(Ordering::SeqCst);
+        let g = !got.lock().unwrap().is_empty();
+        if stuck != case["stuck"].as_bool().unwrap_or(false) || g != case["got"].as_bool().unwrap_or(false) {
+            result = Some(json!({"type":"divergence","rule":"EXT","engine":"selector","kind":"outcome","expected":{"got":case["got"],"stuck":case["stuck"]},
+                "observed":{"got":g,"stuck":stuck,"value":*got.lock().unwrap()},"case":case}));
+        }
+    }
+    for s in slots.values() {
+        s.abort();
+    }
+    result
+}
+
+fn selector_main(args: &[String]) {
+    rtcverif::quiet_panics();
+    rustrtc::verif::set_scheduler(Some(Arc::new(|label: &'static str| {
+        // only the selector's own steps are scheduled; the inner track's recv() runs through atomically
+        if !(label.starts_with("sel_") || label.starts_with("sw_")) {
+            return;
+        }
+        let slot = baton::CURRENT.with(|c| c.borrow().clone());
+        if let Some(s) = slot {
+            s.park(label);
+        }
+    })));
+    let mut out = NdjsonOut::create(&args[3]);
+    let (mut cases, mut ndiv) = (0u64, 0u64);
+    let mut rows = Vec::new();
+    for_each_ndjson(&args[2], |_, case| {
+        cases += 1;
+        if ndiv < 20 {
+            if let Some(d) = selector_case(&case) {
+                ndiv += 1;
+                rows.push(d);
+            }
+        }
+    });
+    for r in &rows {
+        out.push(r);
+    }
+    out.push(&json!({"type":"summary","cases":cases,"divergences":ndiv}));
+    out.finish();
+}
+
 fn main() {
     let args: Vec<String> = std::env::args().collect();
+    if args.len() >= 4 && args[1] == "selector" {
+        selector_main(&args);
+        return;
+    }
     if args.len() < 3 {
         eprintln!("usage: relay <cases.ndjson> <out.ndjson>");
         std::process::exit(2);
